@@ -202,6 +202,9 @@ type familySpec struct {
 	Ref      func(db map[string]AVal, args []string, now int64) *refExp
 	Title    string
 	ExtraCmd func() []Action
+	// LooseDeadlines: whether a key that the command REPLACES (STORE destinations, HSET over another type) keeps or
+	// loses the deadline it had is not specified for this family: both are accepted.
+	LooseDeadlines bool
 	// Sig may name a coarser signature for a divergence with a known root cause ("" = the default kind|abstract command).
 	Sig func(db map[string]AVal, a []string, kind string, now int64) string
 	// Random judges commands with random selections (reply and post state against pre state).
@@ -228,8 +231,16 @@ func (f familyCheck) Describe() CheckInfo {
 	}
 }
 
+// familySeeds: the seeded universe, the empty dataset, and the universe with distinct deadlines on one key of each kind (a command must
+// keep, move or clear deadlines exactly as its reference says - e.g. a key written next to a volatile one must not
+// pick up its deadline).
 func familySeeds() [][]Action {
-	return [][]Action{universeSeed(), nil}
+	vol := universeSeed()
+	// one key of each kind gets its own deadline, its sibling (l2, t2, z2, n ...) stays persistent
+	for i, k := range []string{"s", "l", "h", "t", "z"} {
+		vol = append(vol, cmd("EXPIRE", k, fmt.Sprint(5000+100*i)))
+	}
+	return [][]Action{universeSeed(), nil, vol}
 }
 
 func (f familyCheck) Units(tier string, seed int64) []Unit {
@@ -244,10 +255,13 @@ func (f familyCheck) Units(tier string, seed int64) []Unit {
 		add(0, 1, 8, "full")
 		add(0, 2, 48, "small")
 		add(1, 3, 48, "tiny")
+		add(2, 1, 8, "full")
+		add(2, 2, 24, "tiny")
 	} else {
 		add(0, 1, 8, "full")
 		add(0, 2, 24, "tiny")
 		add(1, 2, 8, "tiny")
+		add(2, 1, 8, "small")
 	}
 	return us
 }
@@ -342,6 +356,14 @@ func (f familyCheck) Run(u Unit, w *Worker) UnitResult {
 				okPost = true
 			}
 		}
+		if !okPost && sp.LooseDeadlines {
+			// same content, and deadlines differ only on keys that had one and were rewritten by this command
+			for _, cand := range append([]map[string]AVal{wantPost}, exp.postAlt...) {
+				if sameButRewrittenDeadlines(pre.Alpha[0], cand, post.Alpha[0]) {
+					okPost = true
+				}
+			}
+		}
 		if !okPost {
 			kind := "state"
 			if exp.post == nil {
@@ -354,4 +376,41 @@ func (f familyCheck) Run(u Unit, w *Worker) UnitResult {
 	runSeq(spec, familySeeds()[a.Seed], func(i int) bool { return i%a.Shards == a.Shard }, w, &res)
 	res.Samples = append(res.Samples, map[string]any{"domains": a.Dom, "depth": a.Depth, "alphabet": len(alpha), "example": alpha[(a.Shard*31)%len(alpha)].String()})
 	return res
+}
+
+// sameButRewrittenDeadlines: got equals want except for the deadline of keys that had a deadline before and whose
+// content the command changed; for those the old deadline or none are both fine.
+func sameButRewrittenDeadlines(pre, want, got map[string]AVal) bool {
+	w, g := normText(normEmpty(want)), normText(normEmpty(got))
+	if len(w) != len(g) {
+		return false
+	}
+	for k, wv := range w {
+		gv, ok := g[k]
+		if !ok {
+			return false
+		}
+		if wv.String() == gv.String() {
+			continue
+		}
+		we, ge := wv.Exp, gv.Exp
+		wv.Exp, gv.Exp = 0, 0
+		if wv.String() != gv.String() {
+			return false
+		}
+		pv, had := pre[k]
+		if !had || pv.Exp == 0 {
+			return false
+		}
+		pv2 := normText(map[string]AVal{k: pv})[k]
+		pe := pv2.Exp
+		pv2.Exp = 0
+		if pv2.String() == wv.String() && we == pe {
+			return false // neither content nor (in the reference) deadline touched: the deadline must be untouched
+		}
+		if !(ge == pe || ge == 0) || !(we == pe || we == 0) {
+			return false
+		}
+	}
+	return true
 }
